@@ -515,7 +515,7 @@ def rule_l8(ctx, facts):
         ctx.fail_closed("L8: expected at least 10 value-slot accesses / found-node returns guarded by key comparisons, found %d" % n)
 
 
-def rule_l12(ctx, facts):
+def rule_l12(ctx, facts, rule="L12"):
     """the `next` pointer of a node that is being removed is left alone: lock-free readers (get, iterators) may be standing on that very
     node and follow its `next` to reach the rest of the bin; only the predecessor's link (or the bin slot) is redirected.  Reported: a
     store to Node.next through the same variable that is then retired, with no re-assignment of the variable in between."""
@@ -573,12 +573,40 @@ def rule_l12(ctx, facts):
                 if rc.point in reach(b, after(b, c.point, label="ret"), avoid=redefs):
                     bad = rc
                     break
-            ctx.inst("L12", b, "store to the next pointer of `%s`" % b.local_name(recv), c.span, bad is None,
+            ctx.inst(rule, b, "store to the next pointer of `%s`" % b.local_name(recv), c.span, bad is None,
                      "the node written to is not the one that is retired afterwards" if bad is None else
                      "the next pointer of the node held in `%s` is overwritten at %s and the same node is then unlinked and retired at %s: a lock-free "
                      "reader standing on it loses the rest of the bin and misses keys that were never removed" % (b.local_name(recv), c.span, bad.span))
     if n < 3:
-        ctx.fail_closed("L12: expected at least 3 stores to Node.next through a named node variable (put append, unlinks in compute_if_present / replace_node), found %d" % n)
+        ctx.fail_closed(rule + ": expected at least 3 stores to Node.next through a named node variable (put append, unlinks in compute_if_present / replace_node), found %d" % n)
+
+
+class _P:
+    """a statement presented like a call site (point and span)"""
+    def __init__(self, body, pt):
+        self.point, self.span = pt, body.span_at(pt)
+
+
+def inline_len_reads(b, il):
+    """length reads (`Table::len`, `<[T]>::len`, `Vec::len`) the index is computed from, through arithmetic, masks and casts"""
+    out, seen, stack = [], set(), [il]
+    while stack:
+        l = stack.pop()
+        if l is None or l in seen or len(seen) > 60:
+            continue
+        seen.add(l)
+        for pt, kind, data in b.defs.get(l, []):
+            if kind == "call":
+                if callee_str(data).rsplit("::", 1)[-1] == "len":
+                    out.append(data)
+                continue
+            if kind != "assign":
+                continue
+            rv = data["rv"]
+            for key in ("use", "cast", "a", "b"):
+                if key in rv and isinstance(rv[key], dict):
+                    stack.append(op_root(rv[key]))
+    return out
 
 
 def rule_l9(ctx, facts):
@@ -595,6 +623,10 @@ def rule_l9(ctx, facts):
             if il is None or tl is None:
                 continue
             binis = [x for x in fl.call_roots(il) if x is not None and callee_str(x).endswith("raw::Table::bini")]
+            if not binis:
+                # the same computation written out (a helper that masks the hash with the table's length and reads the bin in one go):
+                # the index derives from a read of the length of a table
+                binis = inline_len_reads(b, il)
             if not binis:
                 continue
             n += 1
